@@ -81,7 +81,10 @@ class Matcher:
             locale = d["android_locale"]
             # normalize b+ab+Scrip+DE first, the legacy code is followed
             # by "+" there
-            locale = locale.replace("b+", "").replace("+", "-")
+            # only strip the leading marker, "kab" ends in "b", too
+            if locale.startswith("b+"):
+                locale = locale[2:]
+            locale = locale.replace("+", "-")
             # map legacy locale codes, he <-> iw, id <-> in, yi <-> ji
             locale = re.sub(
                 r"(iw|in|ji)(?=\Z|-)",
